@@ -6,6 +6,7 @@ package main
 
 import (
 	"fmt"
+	"os"
 	"go/constant"
 	"go/types"
 	"math/big"
@@ -513,6 +514,9 @@ func (e *specEnv) num(s string) sval {
 
 func (e *specEnv) ident(name string) sval {
 	if v, ok := e.vars[name]; ok {
+		if os.Getenv("VERIF_DEBUG") != "" {
+			fmt.Fprintf(os.Stderr, "ident %s from vars: %q\n", name, v.t)
+		}
 		return v
 	}
 	switch name {
@@ -544,8 +548,14 @@ func (e *specEnv) ident(name string) sval {
 	}
 	if e.fr != nil {
 		if v, ok := e.local(name); ok {
+			if os.Getenv("VERIF_DEBUG") != "" {
+				fmt.Fprintf(os.Stderr, "ident %s local: %q\n", name, v.t)
+			}
 			return v
 		}
+	}
+	if os.Getenv("VERIF_DEBUG") != "" {
+		fmt.Fprintf(os.Stderr, "ident %s -> package scope\n", name)
 	}
 	// package scope
 	if o := e.pkg().Scope().Lookup(name); o != nil {
@@ -671,7 +681,7 @@ func (e *specEnv) local(name string) (sval, bool) {
 			if ph := fr.localNames["#"+name]; len(ph) == 1 {
 				return sval{t: get(ph[0]), typ: ph[0].Type()}, true
 			}
-			e.fail("variable %s is ambiguous here (several SSA values); name a loop phi or parameter", name)
+			return e.localTyped(name, nil), true // the definition that reaches this point
 		}
 	}
 	if tup, ok := uniq.Type().(*types.Tuple); ok {
@@ -698,26 +708,74 @@ func (e *specEnv) localTyped(name string, want types.Type) sval {
 	if use == nil {
 		use = fr.curBlock
 	}
+	defBlock := func(v ssa.Value) *ssa.BasicBlock {
+		if in, ok := v.(ssa.Instruction); ok {
+			return in.Block()
+		}
+		return nil // parameters, constants: available everywhere
+	}
+	usable := func(v ssa.Value) bool {
+		b := defBlock(v)
+		return use == nil || b == nil || b == use || b.Dominates(use)
+	}
+	isNilConst := func(v ssa.Value) bool {
+		c, ok := v.(*ssa.Const)
+		return ok && c.Value == nil
+	}
 	var best *localRef
+	// 1. a reference to the variable at or after the point of use whose value was defined before it: the variable still
+	//    holds that value at the point of use (no phi in between, or the value would be the phi)
 	for k := range fr.localRefs[name] {
 		r := &fr.localRefs[name][k]
 		if want != nil && !types.Identical(r.v.Type(), want) {
 			continue
 		}
-		if use != nil && !(r.block == use || r.block.Dominates(use)) {
+		if isNilConst(r.v) || !usable(r.v) {
 			continue
 		}
-		// a phi of the loop header itself is the value at the loop head
-		if best == nil {
-			best = r
-			continue
-		}
-		if r.block == best.block {
-			if r.ord > best.ord {
+		if use != nil && (r.block == use || use.Dominates(r.block)) {
+			if _, isPhi := r.v.(*ssa.Phi); isPhi && r.block != use {
+				continue
+			}
+			if best == nil || r.block == use || (best.block != use && r.block.Dominates(best.block)) {
 				best = r
 			}
-		} else if best.block.Dominates(r.block) {
-			best = r
+		}
+	}
+	// 2. otherwise the deepest definition that dominates the point of use
+	if best == nil {
+		for k := range fr.localRefs[name] {
+			r := &fr.localRefs[name][k]
+			if want != nil && !types.Identical(r.v.Type(), want) {
+				continue
+			}
+			if use != nil && !(r.block == use || r.block.Dominates(use)) {
+				continue
+			}
+			if best == nil {
+				best = r
+				continue
+			}
+			if isNilConst(best.v) && !isNilConst(r.v) {
+				best = r
+				continue
+			}
+			if r.block == best.block {
+				if r.ord > best.ord {
+					best = r
+				}
+			} else if best.block.Dominates(r.block) {
+				best = r
+			}
+		}
+	}
+	if os.Getenv("VERIF_DEBUG") != "" {
+		ui := -1
+		if use != nil {
+			ui = use.Index
+		}
+		for _, r := range fr.localRefs[name] {
+			fmt.Fprintf(os.Stderr, "  cand %s: %T %s block %d use %d usable %v dom %v best %v\n", name, r.v, r.v.Name(), r.block.Index, ui, usable(r.v), use != nil && use.Dominates(r.block), best != nil && best.v == r.v)
 		}
 	}
 	if best == nil {
